@@ -39,37 +39,38 @@ var origInfoModel = func() map[ipfix.ElementKey]ipfix.InfoElementEntry {
 
 // NodeCfg is the configuration of one collector incarnation.
 type NodeCfg struct {
-	Enabled    map[string]bool `json:"enabled"`
-	Workers    map[string]int  `json:"workers"`
-	Ports      map[string]int  `json:"ports,omitempty"`
-	UDPSize    map[string]int  `json:"udp_size,omitempty"`
-	CapUDP     int             `json:"cap_udp"`
-	CapMQ      int             `json:"cap_mq"`
-	CapMirror  int             `json:"cap_mirror"`
-	SockQueue  int             `json:"sock_queue"`
-	PoolPolicy int             `json:"pool_policy"`
-	Poison     bool            `json:"poison"`
-	StallProb  int             `json:"stall_prob"`
-	StallMaxMs int             `json:"stall_max_ms"`
-	KeepBias   int             `json:"keep_bias"`
-	Producer   string          `json:"producer"` // tap | rawtcp | rawudp
-	RetryMax   int             `json:"retry_max"`
-	MirrorIPFIX string         `json:"mirror_ipfix,omitempty"`
-	MirrorSFlow string         `json:"mirror_sflow,omitempty"`
-	MirrorPort  int            `json:"mirror_port,omitempty"`
-	MirrorWorkers int          `json:"mirror_workers,omitempty"`
-	SFlowFilter []uint32       `json:"sflow_filter,omitempty"`
-	FilterViaFile bool         `json:"filter_via_file,omitempty"` // the filter is given in vflow.conf instead of on the command line
-	ExtElements bool           `json:"ext_elements"`     // install ipfix.elements incl. the enterprise section
-	ShippedElements bool       `json:"shipped_elements"` // install scripts/ipfix.elements verbatim
-	Verbose    bool            `json:"verbose,omitempty"`
-	DynWorkers bool            `json:"dyn_workers,omitempty"`
-	DiskChunk  int             `json:"disk_chunk,omitempty"`
-	ExtraArgs  []string        `json:"extra_args,omitempty"`
-	Env        map[string]string `json:"env,omitempty"`
-	ConfFile   string          `json:"conf_file,omitempty"` // content of /etc/vflow/vflow.conf
-	IPFIXCache string          `json:"ipfix_cache,omitempty"`
-	NF9Cache   string          `json:"nf9_cache,omitempty"`
+	Enabled         map[string]bool   `json:"enabled"`
+	Workers         map[string]int    `json:"workers"`
+	Ports           map[string]int    `json:"ports,omitempty"`
+	UDPSize         map[string]int    `json:"udp_size,omitempty"`
+	CapUDP          int               `json:"cap_udp"`
+	CapMQ           int               `json:"cap_mq"`
+	CapMirror       int               `json:"cap_mirror"`
+	SockQueue       int               `json:"sock_queue"`
+	PoolPolicy      int               `json:"pool_policy"`
+	Poison          bool              `json:"poison"`
+	StallProb       int               `json:"stall_prob"`
+	StallFilter     string            `json:"stall_filter,omitempty"` // stalls only for tasks with such a function on their stack
+	StallMaxMs      int               `json:"stall_max_ms"`
+	KeepBias        int               `json:"keep_bias"`
+	Producer        string            `json:"producer"` // tap | rawtcp | rawudp
+	RetryMax        int               `json:"retry_max"`
+	MirrorIPFIX     string            `json:"mirror_ipfix,omitempty"`
+	MirrorSFlow     string            `json:"mirror_sflow,omitempty"`
+	MirrorPort      int               `json:"mirror_port,omitempty"`
+	MirrorWorkers   int               `json:"mirror_workers,omitempty"`
+	SFlowFilter     []uint32          `json:"sflow_filter,omitempty"`
+	FilterViaFile   bool              `json:"filter_via_file,omitempty"` // the filter is given in vflow.conf instead of on the command line
+	ExtElements     bool              `json:"ext_elements"`              // install ipfix.elements incl. the enterprise section
+	ShippedElements bool              `json:"shipped_elements"`          // install scripts/ipfix.elements verbatim
+	Verbose         bool              `json:"verbose,omitempty"`
+	DynWorkers      bool              `json:"dyn_workers,omitempty"`
+	DiskChunk       int               `json:"disk_chunk,omitempty"`
+	ExtraArgs       []string          `json:"extra_args,omitempty"`
+	Env             map[string]string `json:"env,omitempty"`
+	ConfFile        string            `json:"conf_file,omitempty"` // content of /etc/vflow/vflow.conf
+	IPFIXCache      string            `json:"ipfix_cache,omitempty"`
+	NF9Cache        string            `json:"nf9_cache,omitempty"`
 }
 
 const (
